@@ -388,6 +388,33 @@ class Interp:
                         en2[recv_local] = ("pairs", rest)
                     yield ("opt", ("pair", it)), en2
                 continue
+            if m in ("peekable", "by_ref", "fuse") and rv[0] == "pairs":
+                yield rv, en
+                continue
+            if m == "next_if" and rv[0] == "pairs" and len(e["args"]) == 1:
+                # consume the next pair iff the predicate holds for it
+                if not rv[1]:
+                    yield ("opt", None), en
+                    continue
+                first = ("pair", rv[1][0])
+                for fv, en2 in self.eval(e["args"][0], en):
+                    verdicts = []
+                    if fv[0] == "closure":
+                        cl, cenv = fv[1], dict(fv[2])
+                        cenv.update({k_: v_ for k_, v_ in en2.items() if k_ not in cenv})
+                        for p_, a_ in zip(cl["params"], [first]):
+                            _, cenv = self.match_pat(p_, a_, cenv)
+                        verdicts = [v_ for v_, _ in self.eval(cl["body"], cenv)]
+                    for vd in (verdicts or [OPAQUE]):
+                        if vd == ("bool", True) or vd[0] != "bool":
+                            en3 = en2
+                            if recv_local is not None:
+                                en3 = dict(en2)
+                                en3[recv_local] = ("pairs", rv[1][1:])
+                            yield ("opt", first), en3
+                        if vd == ("bool", False) or vd[0] != "bool":
+                            yield ("opt", None), en2
+                continue
             if m == "peek" and rv[0] == "pairs":
                 yield ("opt", ("pair", rv[1][0]) if rv[1] else None), en
                 continue
